@@ -2,7 +2,6 @@
 import itertools
 import os
 import random
-import subprocess
 
 import vlib
 from vlib import Case
@@ -22,7 +21,7 @@ PROPERTIES = {
             "CelmaVerif/Model/TextBlock.lean (component textblock, property C17) for the description block; "
             "its theorems C17_words_lines / C17_indent / C17_lines are used by the C18 proofs",
             "iostream setw/left, std::string append, ostringstream << int as modelled (padRight, ++, decimal)",
-            "the usage-text parser of the specification (Lemmas/UsageParse.lean: caption lines, entry lines = 3 blanks "
+            "the usage-text reader of the specification (Lemmas/UsageSpec.lean `classify`/`parseUsage`: caption lines, entry lines = 3 blanks "
             "+ non-blank, continuation lines) - the same rule the harness oracle implements in C++",
         ],
         "assumptions": [
